@@ -23,8 +23,6 @@ is emitted before the C op of the target.
 """
 from __future__ import annotations
 
-import hashlib
-
 import validator as V
 from common import enc_text, exc_name
 
@@ -38,8 +36,12 @@ WRITE_SITES = [
     "add_paragraph_style", "update_paragraph_style", "update_paragraph_styles", "add_cell_style", "update_cell_styles",
     "update_cell_style", "add_custom_decimal_format_archive", "add_custom_datetime_format_archive", "add_custom_text_format_archive",
     "add_stroke", "add_strokes", "store_image", "cell_image", "table_format_id", "add_format", "caption_enabled", "caption",
-    "table_name", "sheet_name", "pack_cell_storage",
+    "table_name", "sheet_name", "add_custom_format_archive", "cell_popup_model", "update_cell_style",
 ]
+
+# sites observed on entry and exit (few calls per session), so that the A/X ops they cause carry their own label
+FLUSH_SITES = {"set_reference", "add_table", "add_sheet", "create_caption_archive", "add_paragraph_style", "add_cell_style",
+               "add_formula_owner", "recalculate_merged_cells"}
 
 _installed = False
 
@@ -48,11 +50,38 @@ def refs_of(msg) -> list[int]:
     return V.all_references(msg)
 
 
-def _digest(msg) -> bytes:
+_HOLDS_REFS: dict = {}
+
+
+def can_hold_references(desc) -> bool:
+    """whether a TSP.Reference is reachable in the field graph of a message type (extensions count as reachable)"""
+    key = desc.full_name
+    if key in _HOLDS_REFS:
+        return _HOLDS_REFS[key]
+    seen, todo, found = set(), [desc], False
+    while todo and not found:
+        d = todo.pop()
+        if d.full_name in seen:
+            continue
+        seen.add(d.full_name)
+        if d.full_name == "TSP.Reference" or d.is_extendable:
+            found = True
+            break
+        for f in d.fields:
+            if f.message_type is not None:
+                todo.append(f.message_type)
+    _HOLDS_REFS[key] = found
+    return found
+
+
+def _digest(msg):
+    """change detector for one message; messages whose type cannot hold a reference are never re-read"""
     try:
-        return hashlib.blake2b(msg.SerializePartialToString(), digest_size=12).digest()
+        if not can_hold_references(msg.DESCRIPTOR):
+            return 0
+        return hash(msg.SerializePartialToString())
     except Exception:  # noqa: BLE001
-        return b"?"
+        return None
 
 
 def dict_refs(d) -> list[int]:
@@ -88,7 +117,10 @@ class Recorder:
         self.bad_targets: list[dict] = []      # TargetsExist failures: op index, object, target, site
         self.unwrapped: list[str] = []         # objects / files that appeared without a wrapped call
         self.flushes = 0
+        self.new_files: list[tuple] = []       # (identifier, file name, name was already taken)
+        self.ever: dict[int, set] = {}         # every target object i was ever seen to refer to (message or header, since load)
         self.load = self._snapshot_load()
+        self.filed_at_load = self.filed()
 
     # -- load state ------------------------------------------------------------------------------------------
     def _snapshot_load(self):
@@ -109,6 +141,7 @@ class Recorder:
         for i, o in st._objects.items():
             r = refs_of(o)
             refs[i] = list(r)
+            self.ever[i] = set(r) | set(hdr.get(i, []))
             self.shadow[i] = sorted(r)
             self.digest[i] = _digest(o)
         meta = st._objects[2]
@@ -116,6 +149,26 @@ class Recorder:
                   [(e.component_identifier, e.object_identifier, bool(e.is_weak)) for e in c.external_references]) for c in meta.components]
         return {"ids": list(st._objects.keys()), "files": files, "file_of": dict(st._object_to_filename_map), "refs": refs, "hdr": hdr,
                 "comps": comps, "last": meta.last_object_identifier, "max": st._max_id}
+
+    def filed(self) -> bool:
+        """every stored object's archive is in the file `_object_to_filename_map` names (checked on the real store)"""
+        st = self.store
+        members = {}
+        for i in st._objects:
+            name = st._object_to_filename_map.get(i)
+            f = st._file_store.get(name)
+            if not isinstance(f, self.IWAFile):
+                return False
+            if name not in members:
+                members[name] = {a.header.identifier for a in f.chunks[0].archives}
+            if i not in members[name]:
+                return False
+        return True
+
+    def unlisted_new_files(self) -> list:
+        """new archive files for which no add_component_metadata call for the same object succeeded afterwards"""
+        listed = {op[1] for op in self.ops if op[0] == "M" and op[-1].startswith("ok")}
+        return [(i, n) for i, n, _ in self.new_files if i not in listed]
 
     # -- observation -----------------------------------------------------------------------------------------
     def site(self) -> str:
@@ -137,9 +190,9 @@ class Recorder:
                 if i != created:
                     self.unwrapped.append(f"object {i} ({type(o).__name__}) appeared in the store outside create_object_from_dict")
                 self.shadow[i] = []
-                self.digest[i] = b""
+                self.digest[i] = -1
             d = _digest(o)
-            if d == self.digest[i] and d != b"?":
+            if d == self.digest[i] and d is not None:
                 continue
             self.digest[i] = d
             now = sorted(refs_of(o))
@@ -149,6 +202,7 @@ class Recorder:
             gone, came = _multiset_diff(old, now)
             for t in gone:
                 self.ops.append(("X", i, t, self.site()))
+            self.ever.setdefault(i, set()).update(came)
             for t in came:
                 if t not in st._objects:
                     self.bad_targets.append({"op_index": len(self.ops), "object": i, "object_type": type(o).__name__, "target": t, "site": self.site()})
@@ -235,6 +289,7 @@ def install():
         rec.flush()
         rs = dict_refs(object_dict)
         idx = len(rec.ops)
+        before = set(self._file_store)
         try:
             new_id, obj = orig_create(self, iwa_file, object_dict, cls, append)
         except Exception as e:  # noqa: BLE001
@@ -245,8 +300,12 @@ def install():
             if t not in self._objects:
                 rec.bad_targets.append({"op_index": idx, "object": new_id, "object_type": cls.__name__, "target": t, "site": rec.site() + " (creation dict)"})
         rec.ops.append(("C", iwa_file, append, rs, rec.site(), f"ok {new_id}"))
+        fname = self._object_to_filename_map.get(new_id)
+        if not [k for k in before if iwa_file in k]:   # a new archive file was made for the object
+            rec.new_files.append((new_id, fname, fname in before))
         rec.shadow[new_id] = sorted(rs)
-        rec.digest[new_id] = b""   # re-read at the next observation point
+        rec.ever.setdefault(new_id, set()).update(rs)
+        rec.digest[new_id] = -1   # re-read at the next observation point
         for name in self._file_store:
             rec.known_files.add(name)
         return new_id, obj
@@ -302,10 +361,14 @@ def install():
             rec = rec_of(self.objects) if hasattr(self, "objects") else None
             if rec is None:
                 return orig(self, *a, **k)
+            if name in FLUSH_SITES:
+                rec.flush()
             rec.sites.append(name)
             try:
                 return orig(self, *a, **k)
             finally:
+                if name in FLUSH_SITES:
+                    rec.flush()
                 rec.sites.pop()
         wrapper.__name__ = getattr(orig, "__name__", name)
         wrapper.__wrapped__ = orig
